@@ -320,3 +320,35 @@ func TestReplay(t *testing.T) {
 		}
 	}
 }
+
+// FuzzParse is the native coverage-guided target (thorough tier only; the
+// driver runs it for a bounded time). The oracle is the same checkOne; a
+// violation is written as a replay file at once, because fuzz workers are
+// separate processes whose statistics the driver does not collect.
+func FuzzParse(f *testing.F) {
+	if os.Getenv("VERIF_FUZZ_EMPTY_CORPUS") == "" {
+		for i, s := range inputs.Corpus() {
+			if len(s) < 400 {
+				f.Add([]byte(s), byte(i), i%2 == 0)
+			}
+		}
+		for i, d := range inputs.Dict {
+			f.Add([]byte("<?php "+d), byte(i), i%2 == 0)
+			f.Add([]byte("<?php <<<A\n"+d), byte(i), i%3 == 0)
+			f.Add([]byte("<?php \""+d), byte(i), true)
+		}
+	} else {
+		f.Add([]byte("<?php "), byte(0), true)
+	}
+	f.Fuzz(func(t *testing.T, data []byte, ver byte, cb bool) {
+		if len(data) > 1<<14 {
+			return
+		}
+		v := px.AllVersions[int(ver)%len(px.AllVersions)]
+		if c, m := checkOne(data, v, cb); c != "" {
+			harness.SetProperty("C01")
+			harness.Report("fuzz/"+c, m, data, meta(v, cb))
+			t.Fatalf("%s", m)
+		}
+	})
+}
